@@ -416,8 +416,8 @@ func xcircle(seed uint64) string {
 		variants := []geojson.Object{geojson.NewSimplePoint(p), geojson.NewFeature(pt, ""), geojson.NewFeature(geojson.NewSimplePoint(p), `{"id":1}`),
 			geojson.NewFeatureCollection([]geojson.Object{geojson.NewFeature(pt, "")}), geojson.NewGeometryCollection([]geojson.Object{pt})}
 		for _, v := range variants {
-			if c.Intersects(v) != want || v.Intersects(c) != want {
-				return fmt.Sprintf("FAIL circle intersects %s differently from the bare point (%v) at %v", kindName(v), want, p)
+			if cv, vc := c.Intersects(v), v.Intersects(c); cv != want || vc != want {
+				return fmt.Sprintf("FAIL circle intersects %s differently from the bare point (%v) at %v [circle.Intersects(x)=%v x.Intersects(circle)=%v centre=%v,%v meters=%v circle-rect=%v point-outside-circle-rect=%v]", kindName(v), want, p, cv, vc, lat, lon, c.Meters(), c.Rect(), !c.Rect().ContainsPoint(p))
 			}
 		}
 	}
